@@ -389,3 +389,159 @@ Proof.
     apply G; [intros b Hb; now right|]. intros p. rewrite memf_app. reflexivity.
 Qed.
 End FailRun.
+
+(* ================================================================== the state after touching one file *)
+Lemma touched_hyps all f1 clk X :
+  wf_blocks all -> fs_below f1 clk -> quiet all f1 ->
+  let f2 := upd f1 X clk in
+  fs_below f2 (clk + 1) /\
+  (forall b, In b all -> forall p, In p (b_deps b ++ b_ord b) -> ~ In p (tgts all) -> f2 p <> None) /\
+  (forall b, In b all -> forall p, In p (b_deps b) -> newer_o (f2 p) (f2 (b_key b)) = (p =? X)) /\
+  (forall b, In b all -> f2 (b_key b) <> None -> forall y, In y (b_targets b) -> f2 y <> None).
+Proof.
+  intros [Hnd Hord] Hb Hq. cbn zeta.
+  assert (Hself : forall b, In b all -> forall p, In p (b_deps b) -> p <> b_key b).
+  { intros b Hb' p Hp ->. apply in_split in Hb' as (pre & post & ->).
+    destruct (ordered_b_app pre b post Hord) as [Ho _]. apply (Ho (b_key b) (in_or_app _ _ _ (or_introl Hp))).
+    cbn [tgts flat_map]. apply in_or_app. left. apply key_targets. }
+  split; [|split; [|split]].
+  - intros y t. unfold upd. destruct (y =? X); intros H; [inversion H; lia|apply Hb in H; lia].
+  - intros b Hb' p Hp _. unfold upd. destruct (p =? X); [discriminate|]. exact (xq_src all f1 Hq b Hb' p Hp).
+  - intros b Hb' p Hp. destruct (Hq b Hb') as ((tk & Ek & Hd) & _). destruct (Hd p Hp) as (tp & Ep & Hle).
+    pose proof (Hself b Hb' p Hp) as Hne. unfold upd. destruct (N.eqb_spec p X) as [->|HpX].
+    + apply N.eqb_neq in Hne. rewrite N.eqb_sym in Hne. rewrite Hne, Ek. cbn [newer_o]. apply N.ltb_lt.
+      apply Hb in Ek. exact Ek.
+    + rewrite Ep. destruct (b_key b =? X).
+      * cbn [newer_o]. apply N.ltb_ge. apply Hb in Ep. lia.
+      * rewrite Ek. cbn [newer_o]. now apply N.ltb_ge.
+  - intros b Hb' _ y Hy. destruct (Hq b Hb') as (_ & _ & Ht). unfold upd. destruct (y =? X); [discriminate|now apply Ht].
+Qed.
+
+Lemma rules_okr bs r : In r (rules bs) -> okr (cmds_of false) r.
+Proof.
+  intros Hr. split; [reflexivity|]. unfold rules in Hr. apply in_flat_map in Hr as (b & _ & Hr).
+  destruct b as [o D ord|o1 os K D ord lag]; cbn [b_rules] in Hr.
+  - destruct Hr as [<-|[]]. reflexivity.
+  - apply in_app_or in Hr as [Hr|[<-|[]]].
+    + apply in_map_iff in Hr as (o & <- & _). discriminate.
+    + cbn [x_also]. discriminate.
+Qed.
+
+Lemma fmake_nofail cm rs goals f clk : (forall r, In r rs -> okr cm r) ->
+  fmake cm nofail rs goals f clk = dmake rs goals f clk.
+Proof. intros H. apply fmake_dmake; [exact H|]. intros y _. reflexivity. Qed.
+
+(* ================================================================== scripts *)
+(* A complete build; x is touched; a build in which the steps chosen by the oracle fl fail; a build in which nothing
+   fails; one more build.  L = the steps downstream of x, in script order. *)
+Theorem failed_step_recovers lag steps f clk x fl :
+  wf_script_multi steps -> fs_below f clk ->
+  let rs := xsem_steps true lag steps in
+  let goals := script_goals steps in
+  let cm := cmds_of false in
+  clean_for rs f -> inputs_exist rs f ->
+  let b1 := fmake cm nofail rs goals f clk in
+  let L := map step_target (script_down_steps x steps) in
+  let b2 := fmake cm fl rs goals (upd (d_fs b1) (encF x) (d_clk b1)) (d_clk b1 + 1) in
+  let b3 := fmake cm nofail rs goals (d_fs b2) (d_clk b2) in
+  let b4 := fmake cm nofail rs goals (d_fs b3) (d_clk b3) in
+  d_fail b1 = false /\ d_log b1 = map step_target steps /\
+  d_log b2 = take_ok fl L /\ d_fail b2 = existsb fl L /\
+  d_log b3 = drop_ok fl L /\ d_fail b3 = false /\
+  d_log b2 ++ d_log b3 = L /\
+  d_log b4 = [] /\ d_fail b4 = false.
+Proof.
+  intros Hwf Hb rs goals0 cm Hclean Hin.
+  assert (Hsms : Forall sms steps).
+  { destruct Hwf as (H & _). eapply Forall_impl; [|exact H]. intros st [H1 H2]. now split. }
+  assert (Hsm : Forall sm steps) by (eapply Forall_impl; [|exact Hsms]; now intros a [H _]).
+  set (bs := blocks lag steps).
+  assert (Ers : rs = rules bs) by (apply rules_blocks; exact Hwf).
+  assert (Eg : goals0 = goals bs) by (apply goals_blocks; exact Hwf).
+  assert (Etg : tgts bs = map x_target rs) by (now rewrite Ers, rules_targets).
+  assert (Hwfb : wf_blocks bs).
+  { split.
+    - unfold bs, blocks. rewrite (tgts_blocks_gen lag steps Hsm). apply nodup_map_inj; [exact enc_inj|].
+      now apply nodup_tnodes.
+    - apply ordered_b_gen; [exact Hsms|]. now destruct Hwf as (_ & _ & H). }
+  clearbody rs goals0. subst rs goals0.
+  assert (Hok : forall r, In r (rules bs) -> okr cm r) by (intros r Hr; exact (rules_okr bs r Hr)).
+  intros b1'. assert (E1 : b1' = dmake (rules bs) (goals bs) f clk) by (apply fmake_nofail; exact Hok).
+  clearbody b1'. subst b1'. intros L b2.
+  intros b3'. assert (E3 : b3' = dmake (rules bs) (goals bs) (d_fs b2) (d_clk b2)) by (apply fmake_nofail; exact Hok).
+  clearbody b3'. subst b3'.
+  intros b4'. assert (E4 : b4' = dmake (rules bs) (goals bs) (d_fs (dmake (rules bs) (goals bs) (d_fs b2) (d_clk b2)))
+                                     (d_clk (dmake (rules bs) (goals bs) (d_fs b2) (d_clk b2))))
+    by (apply fmake_nofail; exact Hok).
+  clearbody b4'. subst b4'. subst L b2.
+  destruct (run_clean bs f clk Hwfb Hb) as (F1 & L1 & Q1 & B1 & _).
+  { intros y Hy. rewrite Etg in Hy. apply in_map_iff in Hy as (r & <- & Hr). now apply Hclean. }
+  { intros b Hb' p Hp Hnt. destruct (key_rule b) as (r & Hr & E1 & E2).
+    apply (Hin r); [unfold rules; apply in_flat_map; now exists b|now rewrite E1, E2|now rewrite <- Etg]. }
+  set (b1 := dmake (rules bs) (goals bs) f clk) in *.
+  assert (Hkeys : map b_key bs = map step_target steps).
+  { unfold bs, blocks. rewrite map_map. apply map_ext. intros st. apply blk_key_all. }
+  split; [exact F1|]. split; [now rewrite L1|].
+  destruct (touched_hyps bs (d_fs b1) (d_clk b1) (encF x) Hwfb B1 Q1) as (T1 & T2 & T3 & T4).
+  destruct Hwfb as [Hnd Hord].
+  destruct (blocks_fail_run bs (upd (d_fs b1) (encF x) (d_clk b1)) (d_clk b1 + 1) (fun _ p => p =? encF x) cm fl
+              Hnd Hord T1 T2 T3 T4 Hok) as (D2 & Fl2 & F3 & L3 & Q3 & B3).
+  set (b2 := fmake cm fl (rules bs) (goals bs) (upd (d_fs b1) (encF x) (d_clk b1)) (d_clk b1 + 1)) in *.
+  set (b3 := dmake (rules bs) (goals bs) (d_fs b2) (d_clk b2)) in *.
+  assert (EL : map b_key (snd (fold_left (bd_step (upd (d_fs b1) (encF x) (d_clk b1)) (fun _ p => p =? encF x)) bs ([], []))) =
+               map step_target (script_down_steps x steps)).
+  { destruct (fold_rel lag (upd (d_fs b1) (encF x) (d_clk b1)) x steps Hsms) with (dB := @nil file) (dS := @nil N) (ranS := @nil step)
+      as (dB' & E & _).
+    + intros st Hst. unfold upd. destruct (_ =? _); [discriminate|].
+      destruct (Q1 (blk lag st)) as ((tk & Ek & _) & _); [unfold bs, blocks; now apply in_map|]. congruence.
+    + intros p. reflexivity.
+    + cbn [map] in E. fold (blocks lag steps) in E. fold bs in E. rewrite E. cbn [snd].
+      unfold script_down_steps. rewrite map_map. apply map_ext. intros st. apply blk_key_all. }
+  rewrite EL in D2, Fl2, L3.
+  split; [exact D2|]. split; [exact Fl2|]. split; [exact L3|]. split; [exact F3|].
+  split; [rewrite D2, L3; apply take_drop|].
+  destruct (run_quiet bs (d_fs b3) (d_clk b3) (conj Hnd Hord) B3 Q3) as (F4 & L4 & _).
+  split; [exact L4|exact F4].
+Qed.
+
+Theorem fail_semantics_conservative lag steps goals f clk :
+  wf_script_multi steps ->
+  fmake (cmds_of false) nofail (xsem_steps true lag steps) goals f clk = dmake (xsem_steps true lag steps) goals f clk.
+Proof.
+  intros Hwf. apply fmake_nofail. rewrite (rules_blocks lag steps Hwf). intros r Hr. exact (rules_okr _ r Hr).
+Qed.
+
+(* ================================================================== the recipes are the emitted ones *)
+(* one recipe per rule of emit_make_step, repeated for every target of the rule (a Make rule with several targets is
+   one rule per target) *)
+Definition rule_cmds (rs : list mrule) (cs : list (list rcmd)) : list (list rcmd) :=
+  flat_map (fun rc => map (fun _ => snd rc) (mr_targets (fst rc))) (combine rs cs).
+
+Lemma cmds_xrules tb r k also lag :
+  map (cmds_of tb) (xrules_of r k also lag) =
+  map (fun _ => cmds_of tb (mkX 0 [] [] (xk (mr_recipe r) k) false also 0)) (mr_targets r).
+Proof. unfold xrules_of. rewrite map_map. apply map_ext. reflexivity. Qed.
+
+Lemma multitarget_recipes_ok tb fx lag os deps ord ph rs cs :
+  multitarget_rule fx os deps ord true ph = Some rs -> multitarget_recipes tb fx os true = Some cs ->
+  length cs = length rs /\ map (cmds_of tb) (xsem_rules lag rs) = rule_cmds rs cs.
+Proof.
+  unfold multitarget_rule, multitarget_recipes. destruct os as [|o [|o2 os]]; intros E1 E2; try discriminate;
+    injection E1 as <-; injection E2 as <-; (split; [reflexivity|]); unfold xsem_rules, rule_cmds;
+    rewrite ?map_app, !cmds_xrules; cbn [combine flat_map fst snd mr_targets mr_recipe app xk]; rewrite ?app_nil_r.
+  - reflexivity.
+  - destruct fx, tb; reflexivity.
+Qed.
+
+Theorem recipes_emitted tb fx lag st rs cs :
+  emit_make_step fx st = Some rs -> emit_make_recipes tb fx st = Some cs ->
+  length cs = length rs /\ map (cmds_of tb) (xsem_rules lag rs) = rule_cmds rs cs.
+Proof.
+  unfold emit_make_step, emit_make_recipes. destruct (s_kind st); try apply multitarget_recipes_ok.
+  - destruct (s_outputs st) as [|o os]; intros E1 E2; try discriminate. injection E1 as <-. injection E2 as <-.
+    split; [reflexivity|]. unfold xsem_rules, rule_cmds. rewrite cmds_xrules. cbn [combine flat_map fst snd mr_targets mr_recipe xk].
+    now rewrite app_nil_r.
+  - destruct (s_outputs st) as [|o os]; intros E1 E2; try discriminate. injection E1 as <-. injection E2 as <-.
+    split; [reflexivity|]. unfold xsem_rules, rule_cmds. rewrite cmds_xrules. cbn [combine flat_map fst snd mr_targets mr_recipe xk].
+    now rewrite app_nil_r.
+Qed.
